@@ -26,6 +26,7 @@ type faceTraits struct {
 	SymbolCmap                                                                  bool
 	CmapFormats                                                                 map[uint16]bool
 	Composite, Anchored, Scaled, ScaledOffset, UseMyMetrics                     bool
+	NComposite                                                                  int
 	Huge                                                                        bool
 }
 
@@ -62,6 +63,7 @@ func traitsOfFace(rel string, index int, hb *hbref.Face) faceTraits {
 	if t.Glyf && !t.Huge {
 		gi, ok := parseGlyf(hb.TableData(hbref.Tag("head")), hb.TableData(hbref.Tag("maxp")), hb.TableData(hbref.Tag("loca")), hb.TableData(hbref.Tag("glyf")))
 		if ok {
+			t.NComposite = gi.nComposite
 			t.Composite, t.Anchored, t.Scaled = gi.nComposite > 0, gi.nAnchored > 0, gi.nScaled > 0
 			t.ScaledOffset, t.UseMyMetrics = gi.nScaledOffset > 0, gi.nUseMyMetrics > 0
 		}
